@@ -6,8 +6,8 @@ from ..tlc import MachineryError
 from . import interp_common as IC
 from ..realise import interp_real as IR
 
-GROUPS = {"quick": ["InitPos(3)", "InitSpace(3)", "InitState(3)", "InitBad"],
-          "thorough": ["InitPos(4)", "InitSpace(4)", "InitState(4)", "InitBad"]}
+GROUPS = {"quick": ["InitPos(3)", "InitSpace(3)", "InitState(3)", "InitColor(3)", "InitBad"],
+          "thorough": ["InitPos(4)", "InitSpace(4)", "InitState(4)", "InitColor(4)", "InitBad"]}
 
 
 def run(ck):
@@ -32,6 +32,7 @@ def run(ck):
     for _ in range(40 if ck.tier == "quick" else 300):
         progs.append(base)
     IC.split_invariance(ck, "C05", progs)
+    IC.direction_b(ck, "C05")
     ck.rule = ("every program of up to L operator instances per group (positioning, spacing/scaling, graphics state + forms) and "
                "every operator with missing or ill-typed operands, enumerated by TLC and run as one page each; the glyph list "
                "(matrix, advance, bbox, font, size, fill colour) must equal the one the model assigns; non-trivial = shows at "
